@@ -94,3 +94,9 @@ Spec/Extends.vos Spec/Extends.vok Spec/Extends.required_vos: Spec/Extends.v Mode
 Properties/C16.vo Properties/C16.glob Properties/C16.v.beautified Properties/C16.required_vo: Properties/C16.v Model/Base.vo Model/Schema.vo Model/Typed.vo Model/Inst.vo Spec/Tables.vo Spec/Limits.vo Spec/Extends.vo
 Properties/C16.vio: Properties/C16.v Model/Base.vio Model/Schema.vio Model/Typed.vio Model/Inst.vio Spec/Tables.vio Spec/Limits.vio Spec/Extends.vio
 Properties/C16.vos Properties/C16.vok Properties/C16.required_vos: Properties/C16.v Model/Base.vos Model/Schema.vos Model/Typed.vos Model/Inst.vos Spec/Tables.vos Spec/Limits.vos Spec/Extends.vos
+Proofs/C18P.vo Proofs/C18P.glob Proofs/C18P.v.beautified Proofs/C18P.required_vo: Proofs/C18P.v Model/Base.vo Model/Schema.vo Model/Typed.vo Model/Procs.vo Model/Inst.vo Spec/Tables.vo Spec/ProcTables.vo Proofs/Finite.vo Proofs/FramingP.vo
+Proofs/C18P.vio: Proofs/C18P.v Model/Base.vio Model/Schema.vio Model/Typed.vio Model/Procs.vio Model/Inst.vio Spec/Tables.vio Spec/ProcTables.vio Proofs/Finite.vio Proofs/FramingP.vio
+Proofs/C18P.vos Proofs/C18P.vok Proofs/C18P.required_vos: Proofs/C18P.v Model/Base.vos Model/Schema.vos Model/Typed.vos Model/Procs.vos Model/Inst.vos Spec/Tables.vos Spec/ProcTables.vos Proofs/Finite.vos Proofs/FramingP.vos
+Properties/C18.vo Properties/C18.glob Properties/C18.v.beautified Properties/C18.required_vo: Properties/C18.v Model/Base.vo Model/Schema.vo Model/Wire.vo Model/Typed.vo Model/Procs.vo Model/Inst.vo Spec/Tables.vo Spec/ProcTables.vo Proofs/Finite.vo Proofs/FramingP.vo Proofs/C18P.vo
+Properties/C18.vio: Properties/C18.v Model/Base.vio Model/Schema.vio Model/Wire.vio Model/Typed.vio Model/Procs.vio Model/Inst.vio Spec/Tables.vio Spec/ProcTables.vio Proofs/Finite.vio Proofs/FramingP.vio Proofs/C18P.vio
+Properties/C18.vos Properties/C18.vok Properties/C18.required_vos: Properties/C18.v Model/Base.vos Model/Schema.vos Model/Wire.vos Model/Typed.vos Model/Procs.vos Model/Inst.vos Spec/Tables.vos Spec/ProcTables.vos Proofs/Finite.vos Proofs/FramingP.vos Proofs/C18P.vos
